@@ -68,7 +68,7 @@ func checkStateResponse(c *fw.Ctx) {
 	for _, b := range fn.Blocks {
 		for _, ins := range b.Instrs {
 			mu, ok := ins.(*ssa.MapUpdate)
-			if !ok || !strings.Contains(mu.Map.Type().String(), "map[string]error") {
+			if !ok || !strings.Contains(mu.Map.Type().Underlying().String(), "map[string]error") {
 				continue
 			}
 			var all []string
@@ -85,8 +85,8 @@ func checkStateResponse(c *fw.Ctx) {
 			}
 		}
 	}
-	c.Check(sigFail, rule, "every signature failure is recorded as a failure", c.P.Pos(fn.Pos()), "", "no failures[id] = errors[i] under errors[i] != nil")
-	c.Check(authFail, rule, "every auth failure is recorded as a failure", c.P.Pos(fn.Pos()), "", "no failures[id] = err for a checkAllowedByAuthEvents error")
+	c.Expect(sigFail, rule, "every signature failure is recorded as a failure", c.P.Pos(fn.Pos()), "", "no failures[id] = errors[i] under errors[i] != nil was recognised in CheckStateResponse itself")
+	c.Expect(authFail, rule, "every auth failure is recorded as a failure", c.P.Pos(fn.Pos()), "", "no failures[id] = err for a checkAllowedByAuthEvents error was recognised in CheckStateResponse itself")
 	// errors are index-aligned with the verified list
 	for _, call := range fw.CallsTo(fn, false, fw.NameIs("gmsl.VerifyAllEventSignatures")) {
 		arg := call.Common().Args[1]
@@ -213,7 +213,7 @@ func checkStateResponse(c *fw.Ctx) {
 		if len(r.Results) == 3 {
 			if cst, ok := r.Results[2].(*ssa.Const); ok && cst.Value == nil {
 				for i := 0; i < 2; i++ {
-					ok := fw.DerivesFrom(r.Results[i], fw.FlowSpec{IsSource: fw.IsResultOf(fw.NameIs("(gmsl.EventJSONs).UntrustedEvents"), 0), Through: func(cl ssa.CallInstruction) []int {
+					ok := fw.Derives3(r.Results[i], fw.FlowSpec{IsSource: fw.IsResultOf(fw.NameIs("(gmsl.EventJSONs).UntrustedEvents"), 0), Through: func(cl ssa.CallInstruction) []int {
 						if fw.CalleeName(cl) == "builtin.append" {
 							return []int{0}
 						}
@@ -221,8 +221,8 @@ func checkStateResponse(c *fw.Ctx) {
 							return []int{0}
 						}
 						return nil
-					}, All: true})
-					c.Check(ok, rule, fmt.Sprintf("returned list %d is the (filtered) untrusted parse of the response", i), c.P.Pos(fw.InstrPos(r)), "", "returned list does not derive from UntrustedEvents")
+					}, All: true}) == fw.Yes
+					c.Expect(ok, rule, fmt.Sprintf("returned list %d is the (filtered) untrusted parse of the response", i), c.P.Pos(fw.InstrPos(r)), "", "the returned list could not be traced to UntrustedEvents")
 				}
 			}
 		}
@@ -389,7 +389,43 @@ func checkAllowedByAuth(c *fw.Ctx) {
 	c.CheckGate(rule, fn, "checkAllowedByAuthEvents", fw.GuardCallErrNil("Allowed", fw.NameIs("gmsl.Allowed")), succ)
 	for _, call := range fw.CallsTo(fn, false, fw.NameIs("gmsl.Allowed")) {
 		s := argSigs(call)
-		c.Check(s[0] == "param:event" && strings.HasPrefix(s[1], "gmsl.NewAuthEvents(nil)#0"), rule, "the event is checked against the provider built from its auth events", c.P.Pos(call.Pos()), "", "Allowed("+strings.Join(s, ", ")+")")
+		c.Expect(s[0] == "param:event" && strings.HasPrefix(s[1], "gmsl.NewAuthEvents(nil)#0"), rule, "the event is checked against the provider built from its auth events", c.P.Pos(call.Pos()), "", "Allowed("+strings.Join(s, ", ")+") was not recognised")
+	}
+	// every event gets a provider of its own: AuthEvents.Clear() empties the events but keeps the
+	// set of room ids that Valid() judges by, so a provider reused across the events of a response
+	// lets one event's foreign room id fail all later ones
+	if csr := c.P.Func("CheckStateResponse"); csr != nil {
+		construct := "each event of a state response is checked against a provider of its own"
+		n := 0
+		for _, dc := range deepCallsTo(csr, fw.NameIs("gmsl.Allowed")) {
+			args := dc.Call.Common().Args
+			if len(args) < 2 {
+				continue
+			}
+			prov, pfr := rootOf(args[1], dc.Fr)
+			mk, _ := fw.CallOf(prov)
+			if mk == nil || fw.CalleeName(mk) != "gmsl.NewAuthEvents" {
+				continue
+			}
+			n++
+			// the outermost call site of the chain that leads to Allowed, in CheckStateResponse
+			var top ssa.Instruction = dc.Call.(ssa.Instruction)
+			for f := dc.Fr; f != nil; f = f.Parent {
+				top = f.Site
+			}
+			mkIns, _ := mk.(ssa.Instruction)
+			if pfr == nil && mkIns.Parent() == csr && top.Parent() == csr {
+				_, body := fw.LoopOf(top.Block())
+				if body != nil && !body[mkIns.Block()] {
+					c.Fail(rule, construct, c.P.Pos(mk.Pos()), "the AuthEvents provider is created once, outside the loop over the events, and reused: Clear() does not reset the room ids Valid() compares, so an event citing another room's create event makes every later event of the response fail")
+					continue
+				}
+			}
+			c.Ok(rule, construct, c.P.Pos(mk.Pos()), "")
+		}
+		if n == 0 {
+			c.Undecided(rule, construct, "the provider handed to Allowed was not traced to NewAuthEvents")
+		}
 	}
 	// events added to the provider come from the lookup table or the missing-event provider, keyed by the event's auth ids
 	for _, call := range fw.CallsTo(fn, false, fw.NameIs("(*gmsl.AuthEvents).AddEvent")) {
@@ -488,7 +524,7 @@ func checkUntrusted(c *fw.Ctx) {
 		appendBlock = call.Block()
 	}
 	if appendBlock == nil {
-		c.Fail(rule, "UntrustedEvents keeps events", c.P.Pos(fn.Pos()), "no append")
+		c.Undecided(rule, "UntrustedEvents keeps events", "no append in UntrustedEvents itself (the list is built in a helper)")
 		return
 	}
 	perr := "(gmsl.IRoomVersion).NewEventFromUntrustedJSON(gmsl.GetRoomVersion(param:roomVersion)#0,*recv[(phi(-1|<cycle>|<cycle>|<cycle>) + 1)])#1"
